@@ -327,7 +327,7 @@ func cmdRangeTable(rowsPath, outPath string) {
 			mm("step", 0, strconv.Itoa(r.Step), o.Step.String(), nil)
 		}
 		if o.Iter != "ok" || !sameSeq(o.Seq, r.Seq) {
-			mm("iter", 0, fmt.Sprint(r.Seq), o.Iter, intsOf(o.Seq, len(r.Seq)+4))
+			mm("iter", 0, fmt.Sprint(r.Seq), o.Iter, intsOf(o.Seq, 400))
 		}
 		mem := map[int]bool{}
 		for _, x := range r.Mem {
